@@ -28,6 +28,14 @@ Recv == /\ Live("recv") /\ UNCHANGED stats
                           IF EndsWithBin(E.variants[i].nb) THEN (~E.variants[i].get /\ E.variants[i].all = 0) ELSE (~E.variants[i].get_bin /\ E.variants[i].all_bin = 0)>>,
                      <<"C08.IteratorsTagBySuffix", TaggedOK(E.iter) /\ TaggedOK(E.keys) /\ Len(E.iter) = Len(s.acc)>>,
                      <<"C08.ValueIteratorKinds", E.values_bin = Cardinality({ i \in 1..Len(s.acc) : s.acc[i].bin }) /\ E.values_ascii + E.values_bin = Len(s.acc)>>,
+                     \* the mutable views, the entry API and removal are typed the same way
+                     <<"C08.MutableIteratorsTagBySuffix", E.iter_mut = E.iter /\ E.values_mut_ascii = E.values_ascii /\ E.values_mut_bin = E.values_bin>>,
+                     <<"C08.EntryAndRemovalAreTyped", \A i \in 1..Len(E.other) : LET o == E.other[i] b == EndsWithBin(o.nb) IN
+                          /\ o.get_mut = ~b /\ o.get_bin_mut = b
+                          /\ o.entry = (IF b THEN "invalid" ELSE "occupied") /\ o.entry_bin = (IF b THEN "occupied" ELSE "invalid")
+                          /\ o.remove = ~b /\ o.remove_bin = b
+                          /\ (IF b THEN (o.left_after_remove = E.len /\ o.left_after_remove_bin = E.len - o.count)
+                                   ELSE (o.left_after_remove = E.len - o.count /\ o.left_after_remove_bin = E.len))>>,
                      <<"Order", "wire" \in s.seen>> >>, [s EXCEPT !.seen = @ \cup {"recv"}])
 End == EndK(<< <<"RunComplete", E.outcome = "ok" => "recv" \in s.seen>> >>)
 Known == {"reset", "built", "wire", "recv", "end"}
